@@ -36,8 +36,13 @@ def independent_boson(inp):
     rho0 /= np.trace(rho0)
     corr = oqupy.PowerLawSD(alpha=0.25, zeta=1.0, cutoff=2.5, cutoff_type='exponential', temperature=0.4)
     dt, N = 0.2, 6
-    for K, tau in ((None, None), (2, None), (2, 0.0), (3, 0.25), (2, np.inf), (8, None)):
-        par = oqupy.TempoParameters(dt=dt, dkmax=K, epsrel=1e-9, add_correlation_time=tau)
+    for K, tau in ((None, None), (2, None), (2, 0.0), (3, 0.25), (2, np.inf), (8, None), ('tcut=0.5', np.inf), ('tcut=0.33', 0.25)):
+        if isinstance(K, str):
+            # memory given as a cutoff TIME that is not a multiple of dt: the memory length is dkmax = round(tcut/dt) steps
+            par = oqupy.TempoParameters(dt=dt, tcut=float(K.split('=')[1]), epsrel=1e-9, add_correlation_time=tau)
+            K = par.dkmax
+        else:
+            par = oqupy.TempoParameters(dt=dt, dkmax=K, epsrel=1e-9, add_correlation_time=tau)
         bath = oqupy.Bath(O, corr)
         sys_ = oqupy.System(H)
         d1 = oqupy.Tempo(sys_, bath, par, rho0, 0.0).compute(N * dt, progress_type='silent')
